@@ -220,6 +220,14 @@ def run_config(ctx, cfg):
         for j in range(D):
             rij = state.rho(space[i], space[j])
             ctx.eq("rho/single element == partial trace[%d,%d]" % (i, j), rij._arr[0] + I * rij._arr[1], RS[i][j], z3_confirm=False)
+    # one state against a batch: a row / a column of the matrix
+    for i in sorted({0, D - 1}):
+        row = state.rho(space[i], space, expand=False)
+        col = state.rho(space, space[i], expand=False)
+        ctx.holds("rho/one state against a batch: shapes[%d]" % i, tuple(row.shape) == (2, D) and tuple(col.shape) == (2, D), "%s %s" % (tuple(row.shape), tuple(col.shape)))
+        for j in range(D):
+            ctx.eq("rho/(one state, batch, expand=False) == row of the partial trace[%d,%d]" % (i, j), row._arr[0, j] + I * row._arr[1, j], RS[i][j], z3_confirm=False)
+            ctx.eq("rho/(batch, one state, expand=False) == column of the partial trace[%d,%d]" % (j, i), col._arr[0, j] + I * col._arr[1, j], RS[j][i], z3_confirm=False)
     # the expand flag carried by other objects than the Python singletons
     for name, yes, no in (("numpy.bool_", np.True_, np.False_), ("int", 1, 0)):
         ctx.eq_arrays("rho/expand given as %s: true == the full matrix" % name, state.rho(space, space, expand=yes), rho, z3_confirm=False)
